@@ -431,7 +431,7 @@ def fault_free(t: Trace) -> bool:
 PROCESS_OUTCOMES = ("return", "builtins.Exception*", SUSPEND_FQ, BTE_FQ, ORPHAN_FQ)
 
 
-def context_method_traces(pm: ProtocolModel) -> dict[str, list[Trace]]:
+def context_method_traces(pm: ProtocolModel, probe_bodies: bool = False) -> dict[str, list[Trace]]:
     """For every public operation method of DurableContext: traces with events
     NEWID (a fresh id was drawn), PROCESS (an executor's process() was called; the
     executor object is attached), TRACK (track_replay), OP (nested context API)."""
@@ -457,13 +457,30 @@ def context_method_traces(pm: ProtocolModel) -> dict[str, list[Trace]]:
         if isinstance(sv, Obj):
             data["state"] = sv.fields.get("state", NONE).key()
         ev = it.emit("PROCESS", n, **data)
+        if probe_bodies and isinstance(sv, Obj) and sv.cls_name == "ChildOperationExecutor":
+            # look into the context body: which DurableContext does it hand to user code / the batch handler?
+            body = sv.fields.get("func")
+            if body is not None:
+                try:
+                    it.call_value(body, [], {}, n)
+                except _Raise:
+                    pass
         c = it.decide(f"PROCESS#{idx} outcome", len(PROCESS_OUTCOMES), [short(o) for o in PROCESS_OUTCOMES])
         ev.data["outcome"] = short(PROCESS_OUTCOMES[c])
         if c == 0:
             return Sym(f"ret:process#{idx}")
         raise _Raise(it.make_exc(PROCESS_OUTCOMES[c], f"process#{idx}"), it.site(n))
 
+    def hook_batch_handler(it, fn, sv, a, k, n):
+        ctxv = k.get("map_context") or k.get("parallel_context")
+        it.emit("BATCH_HANDLER", n, fn=fn.name, context_parent=it.getattr_v(ctxv, "_parent_id", n).key() if ctxv is not None else None,
+                operation_id=(it.getattr_v(k["operation_identifier"], "operation_id", n).key() if "operation_identifier" in k else None))
+        return Sym("batch")
+
     extra = {create_id.fq: hook_newid, process_fn.fq: hook_process}
+    if probe_bodies:
+        extra[pm.prog.func("operation.map", "map_handler").fq] = hook_batch_handler
+        extra[pm.prog.func("operation.parallel", "parallel_handler").fq] = hook_batch_handler
     out: dict[str, list[Trace]] = {}
     for name, fn in ctx_cls.methods.items():
         if name.startswith("_") or fn.kind != "method":
@@ -485,7 +502,8 @@ def context_method_traces(pm: ProtocolModel) -> dict[str, list[Trace]]:
                 kw[p.arg] = Sym(p.arg, parse_annotation(prog, fn.module, p.annotation))
             return kw
 
-        out[name] = pm.run_function(fn, self_factory, kw_factory, cell=("DurableContext", name), extra_hooks=extra)
+        out[name] = pm.run_function(fn, self_factory, kw_factory, cell=("DurableContext", name), extra_hooks=extra,
+                                    user_raises={"func": [], "submitter": []} if probe_bodies else None)
     return out
 
 
